@@ -121,7 +121,8 @@ class Run:
         for key, what in self.known_hits:
             print('KNOWN-FINDING: property=%s %s' % (self.prop, what or key))
         shown = 0
-        for path, no_input in self.violations:
+        # violations that come with a failing input are listed first
+        for path, no_input in sorted(self.violations, key=lambda x: bool(x[1])):
             if shown < 20:
                 print('VIOLATION property=%s replay=%s%s' % (self.prop, path, ' no-failing-input-found' if no_input else ''))
             shown += 1
